@@ -364,7 +364,7 @@ PROPS = {
         "explanation": "C05Bdd.* theorems; comp stream: implementation vs truth table of the input text, vs the mirrored compile functions (exact diagrams).",
     },
     "C06": {
-        "modules": ["RsddModel.Props.C06", "RsddModel.Props.C06Real"],
+        "modules": ["RsddModel.Props.C06", "RsddModel.Props.C06Real", "RsddModel.Props.TieDnnf", "RsddModel.Props.TieCnfUp"],
         "streams": [TD_STREAM],
         "rule": "CNFs as in C05 x a random permutation of the variables as decision order x {standard, semantic(U64_LARGEST)} store; for every "
                 "(variable, value) the result and its negation are conditioned; non-trivial = result has a node below a node",
@@ -419,7 +419,7 @@ PROPS = {
         "explanation": "C12.* theorems; opt stream: value and assignment vs exhaustive maximisation and vs the mirrored model (tie-breaking included).",
     },
     "C15": {
-        "modules": ["RsddModel.Props.C15"],
+        "modules": ["RsddModel.Props.C15", "RsddModel.Props.TieCnfUp"],
         "streams": [CNF_STREAM],
         "rule": "raw clause lists (empty list, empty clause, duplicate/complementary literals, unused indices) with a random partial model, a literal to "
                 "condition on and integer weights; hasher histories of push / decide / pop with the partial model kept in step (a decision never "
@@ -439,7 +439,7 @@ PROPS = {
         "explanation": "C15.* theorems; cnf stream: implementation vs set-theoretic definitions on the raw clauses, vs the mirrored model; hasher states compared pairwise.",
     },
     "C17": {
-        "modules": ["RsddModel.Props.C17", "RsddModel.Props.TieCompile"],
+        "modules": ["RsddModel.Props.C17", "RsddModel.Props.TieCompile", "RsddModel.Props.TieCnfUp"],
         "streams": [SER_STREAM],
         "rule": "generated DIMACS texts (comment lines, header, clauses spanning lines, empty clauses, duplicate literals) through Cnf::from_dimacs, "
                 "to_dimacs and back, and through LogicalExpr::from_dimacs; generated s-expressions over up to 6 named variables (names chosen so that "
@@ -511,7 +511,7 @@ PROPS = {
         "explanation": "C19.* theorems; cli stream: printed counts vs brute force from the text, JSON vs truth table of the text, and the composed model reproduces the JSON byte for byte.",
     },
     "C09": {
-        "modules": ["RsddModel.Props.C09"],
+        "modules": ["RsddModel.Props.C09", "RsddModel.Props.TieCnfUp"],
         "streams": [UP_STREAM],
         "rule": "CNFs (unit, duplicate-literal, tautological clauses, an empty clause in one of ten, unused indices) with random decide/pop walks on the "
                 "real SATSolver: decisions of any variable and polarity incl. already assigned ones and re-decisions after backtracking, pops whenever "
@@ -532,7 +532,7 @@ PROPS = {
         "explanation": "C09.* theorems; up stream: every observation vs brute-force entailment / fixpoint / flag / hash-vs-residual, pop vs the earlier observation, and exact equality with the mirrored model incl. watch lists.",
     },
     "C11": {
-        "modules": ["RsddModel.Props.C11Bdd", "RsddModel.Props.C11", "RsddModel.Props.C06"],
+        "modules": ["RsddModel.Props.C11Bdd", "RsddModel.Props.C11", "RsddModel.Props.C06", "RsddModel.Props.TieDnnf"],
         "streams": [HASH_STREAM],
         "rule": "one program of builder operations evaluated in five builders (ROBDD under two orders, compressing SDD builder under one vtree, "
                 "uncompressed SDD builder under another, semantic-hash SDD builder) and CNFs compiled bottom-up and top-down under two orders; the "
